@@ -36,6 +36,12 @@ PRELUDE = r"""
     (if (string-cursor<? c (string-cursor-end s))
         (lp (string-cursor-next s c) (cons (char->integer (string-cursor-ref s c)) acc))
         (reverse acc))))
+(define (back-and-forth s k)
+  (let lp ((c (string-cursor-start s)) (i 0))
+    (if (< i k)
+        (lp (string-cursor-prev s c) (+ i 1))
+        (let lp2 ((c c) (i 0))
+          (if (< i k) (lp2 (string-cursor-next s c) (+ i 1)) (string-cursor->index s c))))))
 (define (walk-back s)
   (let lp ((c (string-cursor-end s)) (acc '()))
     (if (string-cursor<? (string-cursor-start s) c)
@@ -98,7 +104,7 @@ class Hist(object):
             kind = "new"
         else:
             kind = ch.pick(["set", "set", "set", "fill", "copy!", "copy!", "append", "copy", "substring", "list", "vector", "utf8",
-                            "map", "compare", "iport", "oport", "walk", "set", "cursor-index", "upcase", "foreach"])
+                            "map", "compare", "iport", "oport", "walk", "set", "cursor-index", "upcase", "foreach", "before-start"])
         self.tags.add(kind)
         res_expr = "'none"
         res_val = "none"
@@ -244,6 +250,12 @@ class Hist(object):
                 c = ch.pick(CHARS)
                 res_expr = "(val (let ((p (open-output-string))) (write-string %s p) (write-char %s p) (write-string %s p) (get-output-string p)))" % (s, chr_lit(c), o)
                 res_val = "(str %s)" % lst(m + [c] + self.model[o])
+            elif kind == "before-start":
+                # library code ((chibi string) string-suffix?, string-cursor-back) steps back past the start and compares:
+                # k steps back from the start and k steps forward are the start again, and the walk from there is the string
+                k_ = 1 + self.ch.n(3)
+                res_expr = "(list (back-and-forth %s %d) (walk %s))" % (s, k_, s)
+                res_val = "(0 %s)" % lst(m)
             elif kind == "walk":
                 res_expr = "(list (walk %s) (walk-back %s))" % (s, s)
                 res_val = "(%s %s)" % (lst(m), lst(m))
